@@ -38,14 +38,34 @@ def _dedupe(xs):
     return out
 
 
+# look-alike substrates: same atom order and skeleton, different protonation state / charge
+EDITS = [("[O-]", "O"), ("[NH3+]", "N"), ("[NH2+]", "N"), ("[NH+]", "N"), ("C(=O)O)", "C(=O)[O-])"), ("[S-]", "S"), ("[N+]", "N"), ("[n+]", "n")]
+
+
+def _lookalike(smiles, e):
+    """First occurrence of a textual protonation edit, kept only if the result still sanitises."""
+    if e is None:
+        return smiles
+    old, new = EDITS[e % len(EDITS)]
+    if old not in smiles:
+        return smiles
+    out = smiles.replace(old, new, 1)
+    try:
+        ok = cg.parse(out) is not None
+    except Exception:
+        ok = False
+    return out if ok else smiles
+
+
 def _batch_inputs(case):
     style = case["style"]
     idxs = case["templates"]
     rules = [rx.template_graph(cg.corpus()[i][0], "rc") for i in idxs]
     subs = []
-    for j in case["entries"]:
+    for ent in case["entries"]:
+        j, e = ent if isinstance(ent, list) else (ent, None)
         r, p = cg.corpus()[j][0].split(">>")
-        subs.append(cg.unmapped(p if case["invert"] else r))
+        subs.append(_lookalike(cg.unmapped(p if case["invert"] else r), e))
     return style, rules, subs
 
 
@@ -84,7 +104,20 @@ def _compare(case, rec, got, style, rules, subs, tag):
                 f"({'same set, different order' if same_set else 'different set'}); config {dict((k2, case[k2]) for k2 in ('cache', 'cache_max', 'entry_jobs', 'rule_jobs', 'strategy', 'invert'))}",
             )
     rec.nt(len(nonempty) >= 2)
-    rec.label(f"distinct_nonempty={min(len(nonempty), 3)}", f"cache={case['cache']}", f"jobs={case['entry_jobs']}x{case['rule_jobs']}")
+    rec.label("has-lookalike-pair" if _has_lookalike(subs) else "no-lookalike-pair", f"distinct_nonempty={min(len(nonempty), 3)}", f"cache={case['cache']}", f"jobs={case['entry_jobs']}x{case['rule_jobs']}")
+
+
+def _has_lookalike(subs):
+    import re
+
+    strip = lambda x: re.sub(r"[\[\]+\-H0-9]", "", x).lower()  # noqa: E731
+    seen = {}
+    for x in subs:
+        k = strip(x)
+        if k in seen and seen[k] != x:
+            return True
+        seen.setdefault(k, x)
+    return False
 
 
 def body_batch(case, rec):
@@ -291,12 +324,30 @@ def batch_cases(draw, parallel=False, adversarial=False):
     for t in templates:
         cand += [j for j in cls.get(t, []) if j in pool][:6]
     n = draw(st.integers(2, 8))
-    entries = draw(st.lists(st.one_of(st.sampled_from(cand), st.sampled_from(cand), st.sampled_from(pool)), min_size=n, max_size=n))
+    invert = draw(st.booleans())
+
+    def applicable(j):
+        r, p = cg.corpus()[j][0].split(">>")
+        base = cg.unmapped(p if invert else r)
+        return [e for e in range(len(EDITS)) if _lookalike(base, e) != base]
+
+    entries = []
+    for _ in range(n):
+        j = draw(st.one_of(st.sampled_from(cand), st.sampled_from(cand), st.sampled_from(pool)))
+        app = applicable(j)
+        if app and draw(st.booleans()):
+            # a protonation-state look-alike, usually next to its parent
+            if draw(st.booleans()):
+                entries.append([j, None])
+            entries.append([j, draw(st.sampled_from(app))])
+        else:
+            entries.append([j, None])
+    entries = entries[:8]
     case = dict(
         style=style,
         templates=templates,
         entries=entries,
-        invert=draw(st.booleans()),
+        invert=invert,
         strategy=draw(st.sampled_from(["bt", "all", "comp"])),
         cache_max=draw(st.sampled_from([1, 2, 32768])),
     )
@@ -350,7 +401,7 @@ def strat_syncrn(tier):
         return st.fixed_dictionaries(
             dict(
                 style=st.just(style),
-                templates=st.lists(st.sampled_from(pool), min_size=1, max_size=2, unique=True),
+                templates=st.lists(st.sampled_from(pool), min_size=1, max_size=3),  # repeats allowed
                 extra=st.lists(st.sampled_from(pool), min_size=0, max_size=1),
                 repeats=st.integers(1, 2),
                 strategy=st.sampled_from([None, "bt", "all"]),
